@@ -15,7 +15,8 @@ from ..core import guarded, HarnessError
 
 ID = "C15"
 TECHNIQUE = ("Hypothesis-generated call histories on a shared object pool with before/after fingerprints of all inputs "
-             "and a first-execution memo of results (model-based history testing)")
+             "a first-execution memo of results, and a differential against a freshly constructed propagator "
+             "(model-based history testing)")
 LEVEL = ("Histories of 4-14 calls - building relaxation tensors (Redfield static/time dependent, operator/tensor form, "
          "secular; Foerster; combined Redfield-Foerster with cut-off), density-matrix propagation (refinement set by "
          "setDtRefinement, by the Nref argument, or left at the default), state-vector, population and hierarchical-"
@@ -23,7 +24,9 @@ LEVEL = ("Histories of 4-14 calls - building relaxation tensors (Redfield static
          "are executed on one shared set of objects. After every call the Hamiltonian (data, remainder coupling, "
          "protection flag, RWA), the system-bath interaction (operators, correlation functions, rates), all tensors, "
          "hierarchy tables, initial states and axes must be unchanged (1e-12 relative), the Manager must be back in its "
-         "default state, and a call repeated with the same arguments must return the same numbers as the first time.")
+         "default state, a call repeated with the same arguments must return the same numbers as the first time, and a "
+         "density-matrix propagator that has been used before (with or without additional Lorentzian/Gaussian pure "
+         "dephasing, at other refinements) must return what a freshly constructed propagator with the same inputs returns.")
 NOTE = ("A propagator's refinement set explicitly with setDtRefinement is treated as an input of later default calls; "
         "the Nref *argument* of propagate() is not. dim <= 4, <= 60 time points, hierarchy depth <= 2.")
 RULE = ("history = list of ops over a pool built from gens.system_spec(N 2..3, coupled); op arguments are indices "
@@ -42,13 +45,16 @@ def _case(draw, big):
                                  spread=300, jmax=200))
     spec["time"] = [0.0, draw(st.integers(30, 60)), 1.0]
     n = len(spec["E"])
+    # most propagations of one history share a tensor slot and a kind of pure dephasing, so that one propagator object
+    # is used several times with different refinements
+    pd_pref = draw(st.sampled_from([None, "Lorentzian", "Gaussian"]))
     op = st.one_of(
         st.builds(lambda k, s: {"op": "tensor", "theory": k, "slot": s}, st.integers(0, len(THEORIES) - 1), st.integers(0, 1)),
         st.builds(lambda s, r, m, mode, nref, pd: {"op": "rdm", "slot": s, "rho": r, "method": m, "mode": mode,
                                                      "nref": nref, "pd": pd},
-                  st.integers(0, 2), st.integers(0, 1), st.sampled_from(["short-exp", "short-exp-2", "short-exp-6"]),
+                  st.sampled_from([0, 0, 1, 2]), st.integers(0, 1), st.sampled_from(["short-exp", "short-exp-2", "short-exp-6"]),
                   st.sampled_from(["set", "set", "arg", "default", "default"]), st.sampled_from([1, 2, 5]),
-                  st.sampled_from([None, None, "Lorentzian", "Gaussian"])),
+                  st.sampled_from([pd_pref, pd_pref, pd_pref, None, "Lorentzian", "Gaussian"])),
         st.builds(lambda r, L: {"op": "sv", "psi": r, "L": L}, st.integers(0, 1), st.sampled_from([2, 4])),
         st.builds(lambda r: {"op": "pop", "p": r}, st.integers(0, 1)),
         st.builds(lambda d, r: {"op": "heom", "depth": d, "rho": r}, st.integers(1, 2), st.integers(0, 1)),
@@ -56,6 +62,10 @@ def _case(draw, big):
         st.just({"op": "elf"}),
     )
     ops = draw(st.lists(op, min_size=4, max_size=10 if not big else 14))
+    if draw(st.integers(0, 3)) > 0:
+        # start from a time-independent tensor in slot 0 (otherwise slot 0 is empty until a tensor operation fills it)
+        ops.insert(0, {"op": "tensor", "theory": draw(st.sampled_from([k for k, t in enumerate(THEORIES) if not t[1]])),
+                       "slot": 0})
     # make repetition likely: append copies of two earlier ops
     for k in draw(st.lists(st.integers(0, 30), min_size=1, max_size=3)):
         ops.append(dict(ops[k % len(ops)]))
@@ -167,6 +177,7 @@ def check_case(case, ctx):
         return
     memo = {}
     repeats = 0
+    fresh_compared = 0
     last_key = None
     interleaved_repeat = False
     seen_order = []
@@ -176,6 +187,8 @@ def check_case(case, ctx):
         before = pool.fingerprint()
         key = None
         where = kind
+
+        fresh = None
 
         def run():
             nonlocal key, where
@@ -207,38 +220,57 @@ def check_case(case, ctx):
                 # a propagator with additional pure dephasing (needs a time-independent tensor)
                 pd = op.get("pd") if (RT is not None and not td) else None
                 pslot = (slot, pd)
-                if pslot not in pool.props:
+
+                def make_prop():
                     if RT is None:
-                        pr = ReducedDensityMatrixPropagator(pool.ta, hret)
-                    elif pd:
+                        return ReducedDensityMatrixPropagator(pool.ta, hret)
+                    if pd:
                         from quantarhei.qm import PureDephasing
                         g = 0.01 * (numpy.ones((pool.n + 1, pool.n + 1)) - numpy.eye(pool.n + 1))
-                        pr = ReducedDensityMatrixPropagator(pool.ta, hret, RT,
-                                                            PDeph=PureDephasing(drates=g if pd == "Lorentzian" else g / 20.0,
-                                                                                dtype=pd))
-                    else:
-                        pr = ReducedDensityMatrixPropagator(pool.ta, hret, RT)
-                    pool.props[pslot] = [pr, 1]
+                        return ReducedDensityMatrixPropagator(pool.ta, hret, RT,
+                                                              PDeph=PureDephasing(drates=g if pd == "Lorentzian" else g / 20.0,
+                                                                                  dtype=pd))
+                    return ReducedDensityMatrixPropagator(pool.ta, hret, RT)
+                used_before = pslot in pool.props
+                if not used_before:
+                    pool.props[pslot] = [make_prop(), 1]
                 tkey = tkey + (pd,)
                 slot = pslot
                 prop, lastset = pool.props[slot]
                 rho = pool.rho_objs[op["rho"]]
                 nref = 1 if td else op["nref"]          # refined steps of a TD tensor must fit its own axis
                 mode = op["mode"]
+                def fresh_reference(nref_set, nref_arg):
+                    # the same call on a propagator that has no history: same inputs, same refinement
+                    nonlocal fresh
+                    if used_before:
+                        fp = make_prop()
+                        if nref_set != 1:
+                            fp.setDtRefinement(nref_set)
+                        if nref_arg is None:
+                            fresh = numpy.array(fp.propagate(rho, method=op["method"]).data)
+                        else:
+                            fresh = numpy.array(fp.propagate(rho, method=op["method"], Nref=nref_arg).data)
                 if mode == "set":
                     prop.setDtRefinement(nref)
                     pool.props[slot][1] = nref
                     key = ("rdm", tkey, op["rho"], op["method"], nref)
                     where = "rdm/setDtRefinement"
-                    return numpy.array(prop.propagate(rho, method=op["method"]).data)
+                    out = numpy.array(prop.propagate(rho, method=op["method"]).data)
+                    fresh_reference(nref, None)
+                    return out
                 if mode == "arg" and nref > 1:
                     key = ("rdm", tkey, op["rho"], op["method"], nref)
                     where = "rdm/Nref-argument"
-                    return numpy.array(prop.propagate(rho, method=op["method"], Nref=nref).data)
+                    out = numpy.array(prop.propagate(rho, method=op["method"], Nref=nref).data)
+                    fresh_reference(pool.props[slot][1], nref)
+                    return out
                 # default call: the refinement is whatever was last set explicitly with setDtRefinement
                 key = ("rdm", tkey, op["rho"], op["method"], pool.props[slot][1])
                 where = "rdm/default-call"
-                return numpy.array(prop.propagate(rho, method=op["method"]).data)
+                out = numpy.array(prop.propagate(rho, method=op["method"]).data)
+                fresh_reference(pool.props[slot][1], None)
+                return out
             if kind == "sv":
                 if pool.svprop is None:
                     pool.svprop = StateVectorPropagator(pool.ta, pool.ham)
@@ -288,6 +320,12 @@ def check_case(case, ctx):
             if not same:
                 ctx.fail("inputs-unchanged", where, changed=name, rel_change=dev, step=step)
                 return
+        if fresh is not None:
+            fresh_compared += 1
+            same, dev = _same(res, fresh)
+            if not same:
+                ctx.fail("used-propagator-equals-fresh-one", where, rel_change=dev, step=step, pd=op.get("pd"))
+                return
         if key is not None and res is not None:
             if key in memo:
                 repeats += 1
@@ -304,6 +342,8 @@ def check_case(case, ctx):
             else:
                 memo[key] = res
             seen_order.append(key)
+    if fresh_compared:
+        ctx.label("rdm:used-vs-fresh-compared")
     ctx.mark_nontrivial(interleaved_repeat)
 
 
